@@ -94,9 +94,56 @@ def call(m, sess, method, args=(), kwargs=None):
     kwargs = kwargs or {}
     caps = sess._server_capabilities
     n0, l0, r0 = len(sess.sent), len(caps.log), sess.registered()
-    exc = None
+    exc = None; ret = None
     try:
-        getattr(m, method)(*args, **kwargs)
+        ret = getattr(m, method)(*args, **kwargs)
     except Exception as e:          # noqa: the class is the observable
         exc = exc_name(e)
-    return dict(exc=exc, sent=sess.sent[n0:], log=caps.log[l0:], registered=sess.registered() - r0)
+    return dict(exc=exc, sent=sess.sent[n0:], log=caps.log[l0:], registered=sess.registered() - r0,
+                msgid=getattr(ret, '_id', None))
+
+
+# ---------------- independent reader (expat via xml.etree; never lxml) ----------------
+def _split(tag):
+    if tag.startswith('{'):
+        ns, local = tag[1:].split('}', 1)
+        return ns, local
+    return '', tag
+
+def _canon_children(items):
+    out = []
+    for it in items:
+        if it[0] == 'T':
+            if it[1] == '': continue
+            if out and out[-1][0] == 'T': out[-1] = ['T', out[-1][1] + it[1]]
+            else: out.append(['T', it[1]])
+        else:
+            out.append(it)
+    return out
+
+def et_tree(e):
+    """canonical tree of an xml.etree element: ['E', ns, local, sorted [[ans, alocal, value]], children] | ['T', text]"""
+    ns, local = _split(e.tag)
+    attrs = sorted([list(_split(k)) + [v] for k, v in e.attrib.items()])
+    kids = [['T', e.text or '']]
+    for c in e:
+        kids.append(et_tree(c))
+        kids.append(['T', c.tail or ''])
+    return ['E', ns, local, attrs, _canon_children(kids)]
+
+def read_independent(xml_text):
+    """parse a document (str) with the independent reader; raises on ill-formed input"""
+    import xml.etree.ElementTree as ET
+    return et_tree(ET.fromstring(xml_text.encode('utf-8')))
+
+def model_tree(v):
+    """canonical tree of a model value (see coq/Glue/C07_glue.v)"""
+    if v[0] == 1: return ['T', v[1].decode('utf-8')]
+    attrs = sorted([[a[0].decode('utf-8'), a[1].decode('utf-8'), a[2].decode('utf-8')] for a in v[3]])
+    return ['E', v[1].decode('utf-8'), v[2].decode('utf-8'), attrs, _canon_children([model_tree(c) for c in v[4]])]
+
+def enc_tree(t):
+    """canonical tree -> model value"""
+    if t[0] == 'T': return [1, t[1].encode('utf-8')]
+    return [0, t[1].encode('utf-8'), t[2].encode('utf-8'),
+            [[a[0].encode('utf-8'), a[1].encode('utf-8'), a[2].encode('utf-8')] for a in t[3]], [enc_tree(c) for c in t[4]]]
